@@ -252,4 +252,67 @@ theorem rawRecord_alias (i r : List β) (v : RawRecord β) (h : parseRawRecord i
   · obtain ⟨n, hn⟩ := header_incomplete i (by omega)
     simp [parseRawRecord, hn, Res.bind] at h
 
+theorem bind_eq_ok_inv {α γ : Type} {r : Res β α} {f : List β → α → Res β γ} {a : List β} {b : γ}
+    (h : r.bind f = .ok a b) : ∃ i x, r = .ok i x ∧ f i x = .ok a b := by
+  cases r <;> simp [Res.bind] at h
+  exact ⟨_, _, rfl, h⟩
+
+/-- ServerDHParams: the three fields are disjoint pieces of the consumed input, in order -/
+theorem dhParams_alias (i r : List β) (v : DHParams β) (h : parseDhParams i = .ok r v) :
+    ∃ h1 h2 h3 : List β, i = h1 ++ (v.p ++ (h2 ++ (v.g ++ (h3 ++ (v.ys ++ r))))) := by
+  unfold parseDhParams at h
+  obtain ⟨i1, p, e1, h⟩ := bind_eq_ok_inv h
+  obtain ⟨i2, g, e2, h⟩ := bind_eq_ok_inv h
+  obtain ⟨i3, ys, e3, h⟩ := bind_eq_ok_inv h
+  simp at h
+  obtain ⟨a1, _, ha1⟩ := lengthData_alias 2 _ _ _ e1
+  obtain ⟨a2, _, ha2⟩ := lengthData_alias 2 _ _ _ e2
+  obtain ⟨a3, _, ha3⟩ := lengthData_alias 2 _ _ _ e3
+  refine ⟨a1, a2, a3, ?_⟩
+  rw [← h.2, ← h.1]; simp only
+  rw [ha1, ha2, ha3]
+
+theorem beU_alias (w : Nat) (i r : List β) (n : Nat) (h : beU w i = .ok r n) : ∃ hdr : List β, hdr.length = w ∧ i = hdr ++ r := by
+  rcases beU_cases w i with ⟨hw, e⟩ | ⟨_, e⟩
+  · rw [e] at h; simp at h
+    exact ⟨i.take w, by simp [List.length_take, Nat.min_eq_left hw], by rw [← h.1]; simp⟩
+  · rw [e] at h; simp at h
+
+/-- DigitallySigned (RFC 5246 form): the signature is a piece of the consumed input, after 4 header bytes -/
+theorem digitallySigned_alias (i r : List β) (v : DigitallySigned β) (h : parseDigitallySigned i = .ok r v) :
+    ∃ hdr : List β, hdr.length = 4 ∧ i = hdr ++ (v.data ++ r) := by
+  unfold parseDigitallySigned at h
+  obtain ⟨i1, hash, e1, h⟩ := bind_eq_ok_inv h
+  obtain ⟨i2, sign, e2, h⟩ := bind_eq_ok_inv h
+  obtain ⟨i3, d, e3, h⟩ := bind_eq_ok_inv h
+  simp at h
+  obtain ⟨a1, hl1, ha1⟩ := beU_alias 1 _ _ _ e1
+  obtain ⟨a2, hl2, ha2⟩ := beU_alias 1 _ _ _ e2
+  obtain ⟨a3, hl3, ha3⟩ := lengthData_alias 2 _ _ _ e3
+  refine ⟨a1 ++ (a2 ++ a3), by simp [hl1, hl2, hl3], ?_⟩
+  rw [← h.2, ← h.1]; simp only
+  rw [ha1, ha2, ha3]; simp
+
+/-- SCT entry content: key id, extensions and signature are pieces of the consumed input -/
+theorem explicitPrime_alias (i r : List β) (v : ExplicitPrime β) (h : parseExplicitPrime i = .ok r v) :
+    ∃ h1 h2 h3 h4 h5 h6 : List β,
+      i = h1 ++ (v.primeP ++ (h2 ++ (v.a ++ (h3 ++ (v.b ++ (h4 ++ (v.base ++ (h5 ++ (v.order ++ (h6 ++ (v.cofactor ++ r))))))))))) := by
+  unfold parseExplicitPrime at h
+  obtain ⟨i1, x1, e1, h⟩ := bind_eq_ok_inv h
+  obtain ⟨i2, x2, e2, h⟩ := bind_eq_ok_inv h
+  obtain ⟨i3, x3, e3, h⟩ := bind_eq_ok_inv h
+  obtain ⟨i4, x4, e4, h⟩ := bind_eq_ok_inv h
+  obtain ⟨i5, x5, e5, h⟩ := bind_eq_ok_inv h
+  obtain ⟨i6, x6, e6, h⟩ := bind_eq_ok_inv h
+  simp at h
+  obtain ⟨a1, _, ha1⟩ := lengthData_alias 1 _ _ _ e1
+  obtain ⟨a2, _, ha2⟩ := lengthData_alias 1 _ _ _ e2
+  obtain ⟨a3, _, ha3⟩ := lengthData_alias 1 _ _ _ e3
+  obtain ⟨a4, _, ha4⟩ := lengthData_alias 1 _ _ _ e4
+  obtain ⟨a5, _, ha5⟩ := lengthData_alias 1 _ _ _ e5
+  obtain ⟨a6, _, ha6⟩ := lengthData_alias 1 _ _ _ e6
+  refine ⟨a1, a2, a3, a4, a5, a6, ?_⟩
+  rw [← h.2, ← h.1]; simp only
+  rw [ha1, ha2, ha3, ha4, ha5, ha6]
+
 end Tls
